@@ -224,7 +224,7 @@ ADDENDA5 = {
     "C01": "Round 5: the same statement next to a DATA line spelling the same constants and twice in one program; ecb_int also with argument and result in one variable (by-reference call A = INT(A)).",
     "C02": "Round 5: STEP expressions with a sign / parentheses over an input variable; every relation with statements, an empty THEN part or an empty ELSE part.",
     "C03": "Round 5: every prompt of up to two characters over {letter, ?, blank, colon}; array elements assigned directly from converted functions; helper contracts also with result and argument in one variable.",
-    "C04": "Round 5: the same device function with the same operand text several times in one statement.",
+    "C04": "Round 5: the same device function with the same operand text several times in one statement; ecb_button / ecb_point give the same result when the result variable is also an operand (by-reference call), device readings arbitrary.",
     "C05": "Round 5: POKE value operands (speed-poke addresses included), PRINT items that start with a sign or NOT.",
     "C06": "Round 5: lines without a statement as targets and as lines passed over.",
     "C07": "Round 5: LET / no LET x every convertible function as the whole right-hand side; lines without a statement.",
